@@ -211,6 +211,14 @@ def check_duplex(c):
     k = guard(Keccak, b=b, r=r, len=64)
     D = R.Duplex(b, r)
     for i, (m, L, outlen) in enumerate(c["calls"]):
+        if isinstance(outlen, tuple):
+            # ... the same with a per-call rate (r=), which the object sets and restores around the call
+            r2 = outlen[1]
+            got = guard(k, m, bitlen=L, r=r2) if L else guard(k, m[:0], r=r2)
+            exp = R.keccak(b, r2, m, L, 64, True) if L else R.keccak(b, r2, b"", 0, 64, True)
+            if got != exp:
+                raise Violation("duplex-history:interleaved-hash-with-rate!=reference", {"call": i, "out": exp}, {"call": i, "out": got})
+            continue
         if outlen == "hash":
             # an ordinary one-shot hash on the same object between duplexing calls: it has its own state and bit order
             got = guard(k, m, bitlen=L) if L else guard(k, m[:0])
@@ -245,7 +253,8 @@ def duplex_strategy(tier):
                 return (m, L, ol)
             Ls = gen.pick((2, st.sampled_from(sorted(set([0, 1, max(0, r - 3), max(0, r - 2)])))), (3, gen.uint(0, max(0, r - 2))),
                           (1, st.sampled_from([r - 1, r, r + 5])))
-            ols = gen.pick((2, st.none()), (4, gen.uint(1, r)), (2, st.sampled_from(sorted(set([1, min(8, r), r])))), (2, st.just("hash")))
+            ols = gen.pick((2, st.none()), (4, gen.uint(1, r)), (2, st.sampled_from(sorted(set([1, min(8, r), r])))), (2, st.just("hash")),
+                            (2, st.sampled_from([("hash-r", r), ("hash-r", max(3, r - 1)), ("hash-r", min(b - 1, r + 8))])))
             return st.lists(st.builds(one, Ls, ols, gen.blob(32)), min_size=1, max_size=maxcalls).map(
                 lambda calls: {"b": b, "r": r, "calls": tuple(calls)})
         w = b // 25
@@ -259,7 +268,16 @@ def duplex_strategy(tier):
 # one sponge object hashing several messages
 def check_history(c):
     k = make(c)
+    sib = None
+    if c.get("sib"):
+        # a sponge of another width/rate/bit order, built after k and used between its calls
+        sc = {"b": {200: 400, 400: 800, 800: 1600, 1600: 200}[c["b"]], "r": 64 if c["r"] != 64 else 136, "d": 72, "nist": not c["nist"]}
+        sib = make(sc)
     for i, (M, L) in enumerate(c["msgs"]):
+        if sib is not None and i % 2 == 1:
+            sm = bytes(range(i, i + 30))
+            if call(sib, sm, None) != R.keccak(sc["b"], sc["r"], sm, 8 * len(sm), sc["d"], sc["nist"]):
+                raise Violation("sponge:reused-object:sibling-object!=reference", None, None)
         if L is not None and L > 8 * len(M):
             attempt(k, M, bitlen=L)       # over-long bit length: refused or not, only the calls after it are judged
             continue
@@ -279,7 +297,7 @@ def history_strategy(tier):
             out.append((M, 8 * len(M) + 3 if lm == 9 else None if lm == 0 or not M else 8 * len(M) - lm % 8))
         if out[-1][1] is not None and out[-1][1] > 8 * len(out[-1][0]):
             out.append((b"after", None))
-        return {"b": b, "r": r, "d": d, "nist": nist, "msgs": tuple(out)}
+        return {"b": b, "r": r, "d": d, "nist": nist, "msgs": tuple(out), "sib": len(msgs[0][0]) % 2}
     return st.builds(build, st.sampled_from([200, 400, 800, 1600]), gen.uint(0, 7), st.sampled_from([8, 64, 256, 300]), st.booleans(),
                      st.lists(st.tuples(gen.blob_of(gen.uint(0, 40)), gen.uint(0, 10)), min_size=2, max_size=4))
 
@@ -303,13 +321,15 @@ FACETS = [
           rule="random messages up to 700 bytes, SHAKE output 8..3200 bits"),
     Facet("duplex-histories", check_duplex, strategy=duplex_strategy, budget={"quick": 400, "thorough": 10000},
           shards={"quick": 16, "thorough": 32}, nontrivial=lambda c: len(c["calls"]) >= 2,
-          classify=lambda c: ("b=%d" % c["b"], "calls=%d" % len(c["calls"]), "has over-long input" if any(L > c["r"] - 2 and o != "hash" for _, L, o in c["calls"]) else "all fit",
-                              "has interleaved hash" if any(o == "hash" for _, _, o in c["calls"]) else "duplex only"),
+          classify=lambda c: ("b=%d" % c["b"], "calls=%d" % len(c["calls"]), "has over-long input" if any(L > c["r"] - 2 and o != "hash" and not isinstance(o, tuple) for _, L, o in c["calls"]) else "all fit",
+                              "has interleaved hash" if any(o == "hash" for _, _, o in c["calls"]) else "no plain hash",
+                              "has interleaved hash with r=" if any(isinstance(o, tuple) for _, _, o in c["calls"]) else "no hash with r="),
           rule="1..4 (10) duplexing calls on one object (input 0..r-2 bits, output 1..r bits) against the reference duplex object after every call; "
-               "an input longer than r-2 bits must be refused; ordinary hash calls on the same object are interleaved and must neither disturb nor be disturbed"),
+               "an input longer than r-2 bits must be refused; ordinary hash calls on the same object (also with a per-call rate r=) are interleaved and must neither disturb nor be disturbed"),
     Facet("reused-object", check_history, strategy=history_strategy, budget={"quick": 300, "thorough": 8000},
           shards={"quick": 16, "thorough": 32}, nontrivial=lambda c: True,
-          classify=lambda c: ("b=%d" % c["b"], "has over-long bitlen call" if any(L is not None and L > 8 * len(M) for M, L in c["msgs"]) else "all calls valid"),
+          classify=lambda c: ("b=%d" % c["b"], "has over-long bitlen call" if any(L is not None and L > 8 * len(M) for M, L in c["msgs"]) else "all calls valid",
+                              "sibling sponge of another width" if c.get("sib") else "no sibling"),
           rule="2..5 messages hashed one after the other by ONE sponge object; one call in ten passes a bit length beyond the data (not judged, the calls after it are)"),
 ]
 WEIGHT = {"sponge-random": 8, "sponge-small-exhaustive": 6, "fips202-sweep": 5}
